@@ -34,6 +34,9 @@ import (
 var runReplay func(*verdict.Ctx)
 
 func Run(c *verdict.Ctx) int {
+	if spec := os.Getenv("VERIF_C15_CHILD"); spec != "" {
+		return childMain(c, spec) // a child of runStages: runs cases, reports over the pipe
+	}
 	c.Level = "fault_enumeration"
 	runStorage(c)
 	if runReplay != nil {
@@ -46,7 +49,7 @@ const maxCutsPerCrash = 8
 
 type hist struct {
 	stream string // "" for the plain histories; names the family otherwise
-	c      *verdict.Ctx
+	c      vctx
 	idx    int
 	base   string
 	rep    *reporter
@@ -439,7 +442,7 @@ func (hs *hist) probe(m *model, snap snapshot, p cutPlan, cyc, pi int, nontrivia
 	}
 }
 
-func runHistory(c *verdict.Ctx, idx int, base string) {
+func runHistory(c vctx, idx int, base string) {
 	r := c.Rand("history", idx)
 	cfg := genCfg(r)
 	hb, err := os.MkdirTemp(base, fmt.Sprintf("h%d-", idx))
@@ -451,6 +454,7 @@ func runHistory(c *verdict.Ctx, idx int, base string) {
 	hs := &hist{c: c, idx: idx, base: hb}
 	hs.rep = &reporter{c: c, hist: idx, cfg: cfg}
 	m := newModel(cfg.HeadLimit, cfg.TotalLimit)
+	defer attachSink(m, "history", idx)()
 	dir, err := os.MkdirTemp(hb, "d")
 	if err != nil {
 		c.HarnessError("mkdir: %v", err)
@@ -622,81 +626,8 @@ func runStorage(c *verdict.Ctx) {
 		"a single flipped byte inside the synced region is a separate class with the weaker oracle only (nothing returned that was not written, in order)",
 		"a successful sync is taken to cover every record handed to the WAL since it was opened; unsynced records that merely survived an earlier crash are never demanded",
 	)
-	installHooks()
-	defer removeHooks()
-	base := verdict.TmpDir("c15-")
-	defer os.RemoveAll(base)
-
-	if rp := c.Replay(); rp != "" {
-		var w struct {
-			Stream string `json:"stream"`
-			Index  int    `json:"index"`
-		}
-		if err := verdict.LoadReplay(rp, &w); err != nil {
-			c.HarnessError("replay file: %v", err)
-			return
-		}
-		switch w.Stream {
-		case "rotation-race":
-			runRace(c, base)
-		case "bigrec", "rawgroup":
-			runBig(c, base)
-		case idxStream:
-			runIdx(c, base)
-		case "history":
-			runHistory(c, w.Index, base)
-		}
-		return
-	}
-
-	if s := os.Getenv("VERIF_C15_HISTORY"); s != "" { // debugging aid: run one history
-		var i int
-		if _, err := fmt.Sscan(s, &i); err == nil {
-			runHistory(c, i, base)
-			return
-		}
-	}
-	n := c.N(2000, 40000)
-	if s := os.Getenv("VERIF_C15_N"); s != "" { // debugging aid
-		fmt.Sscan(s, &n)
-	}
-	// the histories are bound by fsync latency, not by CPU: more workers than
-	// cores let the file system batch concurrent fsyncs
-	workers := 4 * runtime.NumCPU()
-	if s := os.Getenv("VERIF_C15_WORKERS"); s != "" {
-		fmt.Sscan(s, &workers)
-	}
-	if workers < 1 {
-		workers = 1
-	}
-	jobs := make(chan int, 64)
-	var wg sync.WaitGroup
-	for w := 0; w < workers; w++ {
-		wg.Add(1)
-		go func() {
-			defer wg.Done()
-			for i := range jobs {
-				runHistory(c, i, base)
-			}
-		}()
-	}
-	for i := 0; i < n; i++ {
-		jobs <- i
-	}
-	close(jobs)
-	wg.Wait()
-
-	c.Set("histories", n)
-	runRace(c, base)
-	runBig(c, base)
-	runIdx(c, base)
-	c.Count("hook_autofile_synced_hits", verifhook.Hits("autofile.synced"))
-	c.Count("hook_group_rotate_hits", verifhook.Hits("group.rotate"))
-	c.Count("hook_group_removed_hits", verifhook.Hits("group.removed"))
-	if verifhook.Hits("autofile.synced") == 0 {
-		c.HarnessError("C15a observed nothing: the autofile.synced point was never hit (no fsync of the WAL head was ever observed)")
-	}
-	if c.Counter("acked_records_confirmed") == 0 {
-		c.HarnessError("C15a observed nothing: no record whose sync returned nil was ever confirmed by a reader")
-	}
+	c.Assume("rotation-race family: the operation sequence is seeded, the interleaving of the writer with the group's ticker and with the RotateFile goroutine is left to the scheduler (counts vary between runs); RotateFile is exported and takes the group mutex like the ticker's call, so a rotation between any two Group.Write calls is a schedule the node can produce",
+		"power-loss image: of every file only the prefix survives that the autofile.synced point (hit right after fsync returned, rotation included) reported; the bytes behind it are dropped or overwritten with garbage",
+		"every case of C15a runs in a child process (the same binary, re-executed): a panic of the code under test in one of its own goroutines ends that child and is reported as a finding, the remaining cases continue in a fresh child")
+	runStages(c)
 }
